@@ -581,6 +581,16 @@ def r6(cx):
                         if found:
                             how = 'collected into `%s`, drained by %s' % (parent.local_name(base), parent.fn)
                             cx.fn(parent.fn)
+                            # every batch obtained from the system reaches the collection: no exit, and no next wait, before the store
+                            start = d if d is not None else t.get('to')
+                            if start is not None:
+                                q = Q.must_pass(body, [start], {sb}, goal_blocks=set(body.return_blocks()) | {blk})
+                                if q is not None:
+                                    cx.violation(body.root, 'batch-dropped', 'a batch of caught signals can leave this function (or be '
+                                                 'overwritten by the next wait) without being added to `%s`: the signals delivered together '
+                                                 'with the one that ends the wait (e.g. SIGTERM arriving with the SIGINT that interrupts a '
+                                                 'built-in) are consumed but their traps never run' % parent.local_name(base),
+                                                 loc=body.loc(t), path=Q.render_path(body, q))
                             if p:
                                 cx.violation(body.root, 'catch-skipped', 'a path leaves %s without recording the collected signals '
                                              'in the trap set' % parent.fn, loc=parent.loc(as_), path=Q.render_path(parent, p))
